@@ -67,6 +67,31 @@ def plan(tier):
 
 # ------------------------------------------------------------- generators
 def gen_call(family, rng, tier):
+    if family == "place" and rng.random() < .15:
+        # a tight machine and a grid-shaped netlist with fractional weights:
+        # the annealer has to swap vertices, and many cost changes cancel
+        # exactly - which is where the order of a float sum, or of a set of
+        # objects, decides what the seeded generator is asked next
+        side = rng.choice([3, 4, 5])
+        per = rng.choice([1, 2, 3])
+        nv = min(side * side * per, side * side + rng.randint(0, side))
+        nets_ = []
+        for v in range(nv):
+            if (v + 1) % side and v + 1 < nv:
+                nets_.append((v, [v + 1], 1.0))
+            if v + side < nv:
+                nets_.append((v, [v + side], 1.0))
+        for _ in range(rng.randint(0, 3)):
+            nets_.append((rng.randrange(nv),
+                          [rng.randrange(nv) for _ in range(3)],
+                          rng.choice([0.5, 2.0, 0.1, 3])))
+        return ("place", dict(
+            machine=dict(w=side, h=side, res={"Cores": per, "SDRAM": 10},
+                         exc={}, dead_chips=[], dead_links=[]),
+            vertices=[(v, {"Cores": 1}) for v in range(nv)], nets=nets_,
+            constraints=[], placer="sa-py", easy=False,
+            kw=dict(effort=rng.choice([0.1, 0.3, 0.5]),
+                    seed=rng.randrange(1 << 30), stop_after=None)))
     if family == "place":
         c = c02.gen(rng.choice(["easy", "general", "groups", "tight"]),
                     rng.randrange(1000), rng, "quick")
@@ -333,6 +358,10 @@ def execute(desc, ctx=None, mutate=False, seed=0):
             fn = imp("rig.place_and_route.place." + placer).place
             kw = {k_: ([tuple(c) for c in v] if k_ == "chip_order" and v
                        else v) for k_, v in kw.items()}
+            form = kw.pop("order_form", "list")
+            for k_ in ("vertex_order", "chip_order"):
+                if kw.get(k_) is not None and form == "tuple":
+                    kw[k_] = tuple(kw[k_])
         w = Watch(ctx, "place(%s)" % placer, vertices_resources=vr, nets=nets,
                   machine=machine, constraints=cons,
                   orders=[kw.get("vertex_order"), kw.get("chip_order")])
